@@ -7,6 +7,8 @@
    advances, restarts and in-sync changes):
    141 a new transaction conflicting with a held one is delivered without the unsafe flag
    142 a delivered unconfirmed transaction whose conflict just arrived gets no unsafe update
+   144 a delivered unconfirmed transaction seen again (after a restart emptied the mempool) that now
+       conflicts with a held one gets no unsafe update
    103 a notification says safe for a transaction already reported unsafe or cancelled *)
 From V.lib Require Import Base.
 From V.model Require Import MemPool TxFlow TxFlowSpec.
@@ -14,7 +16,7 @@ From V.proofs Require Import TxFlow_Proofs.
 
 Theorem C05_node_txflow :
   forall (delay : Z) (ops : list op),
-    flow_valid delay ops = true -> never_objects delay [103; 141; 142] ops.
+    flow_valid delay ops = true -> never_objects delay [103; 141; 142; 144] ops.
 Proof. exact (txflow_never_objects_C05). Qed.
 Print Assumptions C05_node_txflow.
 
